@@ -319,6 +319,12 @@ func (r *FnRun) exec(st *State, fr *frame, b *ssa.BasicBlock, i int) {
 			return
 		case *ssa.If:
 			c := r.val(st, x.Cond).S
+			switch st.known(c) {
+			case 1:
+				c = "true"
+			case -1:
+				c = "false"
+			}
 			if c != "false" {
 				s1 := st
 				if c != "true" {
@@ -1390,7 +1396,10 @@ func (r *FnRun) modsetCall(ms *modset, c *ssa.CallCommon, depth int) {
 		for _, a := range fc.Assigns {
 			ms.fams[a] = true
 		}
-		// pointer parameters of a functype may be local cells: handled by caller via args
+		if fc.ClosedWorld {
+			// values of this type are the package's own literals: no user code, no trace events
+			return
+		}
 	}
 	ms.events = true
 	ms.fams["ctxdone"] = true
